@@ -7,7 +7,7 @@ git -C /repo diff --quiet -- include || { echo "/repo has local modifications, r
 git -C /repo apply $d/patch.diff || { echo "$id: patch does not apply"; exit 3; }
 out=""
 for p in "$@"; do
-  /verif/bin/check $p --tier quick > /tmp/seedrun_$id_$p.log 2>&1; rc=$?
+  VERIF_EVIDENCE_DIR=/tmp/seed_evidence /verif/bin/check $p --tier quick > /tmp/seedrun_$id_$p.log 2>&1; rc=$?
   v=$(grep -c "^VIOLATION" /tmp/seedrun_$id_$p.log)
   f=$(grep "^VIOLATION" /tmp/seedrun_$id_$p.log | sed -e 's/.*obligation=\([^ ]*\) failed=\([^ ]*\).*/\1:\2/' | head -3 | tr '\n' ' ')
   e=$(grep "^ERROR" /tmp/seedrun_$id_$p.log | head -2 | cut -c1-200 | tr '\n' ' ')
